@@ -57,10 +57,13 @@ impl Block for Midpointer {
             Some((x, _tags)) => x,
         };
         let mean: Float = v.iter().sum::<Float>() / v.len() as Float;
+        let (mut a, mut b): (Vec<Float>, Vec<Float>) = v.iter().partition(|&t| *t > mean);
         if mean.is_nan() {
             warn!("Midpointer got NaN");
+        } else if a.is_empty() || b.is_empty() {
+            // E.g. a constant burst. There's no midpoint between two levels.
+            warn!("Midpointer got a burst without two levels");
         } else {
-            let (mut a, mut b): (Vec<Float>, Vec<Float>) = v.iter().partition(|&t| *t > mean);
             a.sort_by(|a, b| a.partial_cmp(b).unwrap());
             b.sort_by(|a, b| a.partial_cmp(b).unwrap());
             let high = a[a.len() / 2];
@@ -216,8 +219,7 @@ fn find_best_bin(data: &[Complex]) -> Option<usize> {
         .iter()
         .take(data.len())
         .skip(skip)
-        .max_by(|a, b| a.partial_cmp(b).unwrap_or(std::cmp::Ordering::Equal))
-        .unwrap()
+        .max_by(|a, b| a.partial_cmp(b).unwrap_or(std::cmp::Ordering::Equal))?
         * 0.8;
 
     // Pick the first value that's above 80% of max and not still heading upwards.
